@@ -7,6 +7,7 @@ package grpctunnel
 // changes no existing code.
 
 import (
+	"context"
 	"time"
 
 	"google.golang.org/grpc/metadata"
@@ -16,3 +17,16 @@ import (
 func VerifTimeoutFromHeaders(headers metadata.MD) (time.Duration, bool) {
 	return timeoutFromHeaders(headers)
 }
+
+// VerifSender exposes the flow-controlled sender (defaultSender).
+type VerifSender struct{ s *defaultSender }
+
+// VerifNewSender creates a flow-controlled sender like a stream does.
+func VerifNewSender(ctx context.Context, window uint32, sendFunc func([]byte, uint32, bool) error) *VerifSender {
+	return &VerifSender{s: newSender(ctx, window, sendFunc).(*defaultSender)}
+}
+
+func (v *VerifSender) Send(b []byte) error   { return v.s.send(b) }
+func (v *VerifSender) UpdateWindow(n uint32) { v.s.updateWindow(n) }
+func (v *VerifSender) Window() uint32        { return v.s.currentWindow.Load() }
+func (v *VerifSender) TokenPending() bool    { return len(v.s.windowUpdates) > 0 }
